@@ -24,6 +24,10 @@ fn gen_cases(rng: &mut Rng, tier: Tier) -> Vec<Value> {
                 let tour: Vec<i64> = (0..k).map(|_| rng.range(0, 20)).collect();
                 case["values"] = json!({"tour": tour, "job": rng.range(0, 20), "mode": if i % 3 == 1 { "job" } else { "actor" }});
             }
+            // one case in four: a goal of eight or nine layers (four constantly-zero layers in front of the usual ones)
+            if i % 4 == 2 {
+                case["pad_layers"] = json!(4);
+            }
             case
         })
         .collect()
@@ -37,12 +41,24 @@ fn ints(it: impl Iterator<Item = f64>) -> Vec<i64> {
     .collect()
 }
 
+/// goals padded with constantly-zero layers in front (`pad_layers`): the padding must read zero everywhere and is taken off
+/// again, so that the rows have the shape the model predicts; a quote that is SHORTER than the goal has layers stays short
+fn ints_p(pad: usize, it: impl Iterator<Item = f64>) -> Vec<i64> {
+    strip(pad, ints(it))
+}
+
+fn strip(pad: usize, v: Vec<i64>) -> Vec<i64> {
+    assert!(v.iter().take(pad).all(|x| *x == 0), "a constantly-zero layer reads non-zero: {v:?}");
+    v.into_iter().skip(pad).collect()
+}
+
 fn exec(case: &Value) -> Value {
+    let pad = case["pad_layers"].as_u64().unwrap_or(0) as usize;
     let ec = build_case(case, quiet_env());
     // the candidate job counts as unassigned before the insertion (`InsertionContext::new` lists it there)
     let job = ec.job.clone();
     assert!(ec.ctx.solution.unassigned.contains_key(&job) && ec.ctx.solution.required.is_empty());
-    let before = ints(ec.problem.goal.fitness(&ec.ctx));
+    let before = ints_p(pad, ec.problem.goal.fitness(&ec.ctx));
 
     let route_ctx = match ec.ctx.solution.routes.first() {
         Some(r) => r.deep_copy(),
@@ -68,8 +84,8 @@ fn exec(case: &Value) -> Value {
         let result = heuristic.process(ec.ctx.deep_copy(), &AllJobSelector::default(), &AllRouteSelector::default(), &leg_selection, &result_selector);
         let inserted = result.solution.routes.iter().any(|r| r.route().tour.jobs().any(|j| *j == job));
         assert!(inserted, "the construction heuristic did not place the multi-task job the evaluator accepted");
-        let after = ints(ec.problem.goal.fitness(&result));
-        return json!({"rows": [{"cost": ints(success.cost.iter()), "acts": acts, "before": before, "after": after}]});
+        let after = ints_p(pad, ec.problem.goal.fitness(&result));
+        return json!({"rows": [{"cost": ints_p(pad, success.cost.iter()), "acts": acts, "before": before, "after": after}]});
     }
     let rows: Vec<Value> = (0..legs)
         .map(|p| {
@@ -86,8 +102,8 @@ fn exec(case: &Value) -> Value {
                 panic!("the construction heuristic did not place the job the evaluator accepted: p={p} unassigned={:?} dep={dep:?} routes={}",
                     result.solution.unassigned.get(&job), result.solution.routes.len());
             }
-            let after = ints(ec.problem.goal.fitness(&result));
-            json!({"cost": ints(success.cost.iter()), "place": act.place.idx, "tw": [act.place.time.start as i64, act.place.time.end as i64],
+            let after = ints_p(pad, ec.problem.goal.fitness(&result));
+            json!({"cost": ints_p(pad, success.cost.iter()), "place": act.place.idx, "tw": [act.place.time.start as i64, act.place.time.end as i64],
                    "before": before, "after": after})
         })
         .collect();
